@@ -237,8 +237,8 @@ def sub_notes(ctx, shard, n):
         ctx.exhaustive("Note.transpose: names x octaves x shorthands x direction", "35 x 0..9 (down 1..9) x 31 x 2", len(cases))
     ctx.enumerate("note", check_note, cases[shard::n])
     if shard == 0:
-        oc = [[nm, o, d] for nm in ("C", "F#", "Bb") for o in range(-4, 10) for d in range(-15, 16)]
-        ctx.exhaustive("change_octave", "3 names x octaves -4..9 (negative ones reached by transposing down) x diffs -15..15", len(oc))
+        oc = [[nm, o, d] for nm in T.unmixed_names(2) + ["A###", "B###", "Cbbb"] for o in range(-4, 10) for d in range(-15, 16)]
+        ctx.exhaustive("change_octave", "38 names x octaves -4..9 (negative ones reached by transposing down) x diffs -15..15", len(oc))
         ctx.enumerate("octave", check_octave, oc)
 
 
